@@ -179,7 +179,7 @@ def c13(prop, tier, replay):
             return dict(i=i, race=race, args=args, racy=None, viol=viol, infra=infra, states=res.distinct, trans=res.generated, ids=ids, acc=acc, evs=evs)
         outs = vf.pmap(one, shards)
         infra = [x for o in outs for x in o["infra"]]
-        if infra:
+        if infra and not any(o["viol"] or o["racy"] for o in outs):
             raise vf.Infra("the harness waited in vain although the model is quiescent too (scenario generator or machine load problem): %s" % (infra[:2],))
         paths = []
         nviol = 0
